@@ -236,6 +236,13 @@ impl InnerLocustDB {
         // A table buffer without rows adds nothing: it must not create the table or its catalogue
         // rows either (the table would have no partition to be restored from after a flush)
         events.tables.retain(|_, table_buffer| table_buffer.len() > 0);
+        // Checked before the request is logged and before any lock is taken: what is in the log has to
+        // be applicable, now and at every later start-up
+        for (name, table_buffer) in &events.tables {
+            if let Err(err) = table_buffer.validate(name) {
+                panic!("Refusing to ingest an inconsistent table buffer: {}", err);
+            }
+        }
         let (wal_size, wal_condvar) = &self.wal_size;
         // Holding wal lock ensures single-threaded ingestion
         let mut wal_size = wal_size.lock().unwrap();
